@@ -7,6 +7,7 @@ import Tw.Proofs.HuffmanRefD
 import Tw.Proofs.HuffmanStream
 import Tw.Model.HuffmanFreq
 import Tw.Proofs.HuffmanFreq
+import Tw.Proofs.HuffmanFreqInner
 import Tw.Gen.Huffman
 
 /-!
@@ -203,7 +204,23 @@ theorem C07_full_witness : ¬ C07_full := by
   rw [fromFrequencies_zero_panics] at ht
   cases ht
 
-/-- What is proved instead: for every frequency vector on which the construction succeeds with a table
+/-- Proved for **every** frequency vector on which `from_frequencies` returns (no further hypothesis):
+the table has 513 entries, every inner node's children have smaller indices, and therefore the
+decoder with that table terminates on every input, its result at a smaller capacity is the result at
+a larger one cut down, and it reports the capacity error exactly when the output does not fit
+(output ≤ capacity holds for any table: `decompress_within_capacity`). -/
+theorem fromFrequencies_decoder_total (f : List Nat) (t : Table) (hok : fromFrequencies f = .ok t) :
+    t.size = NUM_NODES
+    ∧ (∀ input cap, decompress t input cap ≠ .diverge)
+    ∧ (∀ input cap' cap, cap' ≤ cap → decompress t input cap' = (decompress t input cap).trunc cap')
+    ∧ (∀ input cap, decompress t input cap = .capacity ↔
+        ∀ cap' out, decompress t input cap' = .ok out → cap < out.length) :=
+  have h := fromFrequencies_inner f t hok
+  ⟨h.1, fun input cap => decompress_terminates_of_childLt t h.2 input cap,
+   fun input cap' cap hc => decompress_trunc_of_childLt t h.2 input cap' cap hc,
+   fun input cap => decompress_capacity_iff_of_childLt t h.2 input cap⟩
+
+/-- For the remaining clauses: for every frequency vector on which the construction succeeds with a table
 satisfying the two decidable predicates (the driver decides them for every sampled vector and
 reports `ok-but-not-wellformed` otherwise), the codec with that table is lossless, predicts its
 length, is total and bounded, and agrees with the reference algorithms run on the same table. -/
